@@ -2,7 +2,7 @@
 //
 // Line protocol: one scenario per input line, one result line per scenario.
 //   scn <id> [pert=<mode>:<seed>:<usec>] [dump=1] [wd=<seconds>] S:<stream> [S:<stream> ...] [end=1]
-//   <stream> = t<threads>,b<block_size>,o<timeout_ms>,c<check>,f<chain>,k<kind>,n<size>,d<dataseed>,s<sliceseed>,x<abort_after_calls|-1>,g<seg>;<seg>;...
+//   <stream> = t<threads>,b<block_size>,o<timeout_ms>,c<check>,f<chain>,k<kind>,n<size>,d<dataseed>,s<sliceseed>,x<abort_after_calls|-1>[,z<slice scale>],g<seg>;<seg>;...
 //   <seg>    = <len><r|f|b|F>[u<chain>]      r=LZMA_RUN f=LZMA_FULL_FLUSH b=LZMA_FULL_BARRIER F=LZMA_FINISH,
 //                                              u<chain> = lzma_filters_update(chain) after the segment
 // All streams of a scenario run on ONE lzma_stream handle (re-initialisation); a stream with x>=0 is abandoned after
@@ -97,7 +97,7 @@ static int fail(const char *code, const char *fmt, ...)
 typedef struct { size_t len; lzma_action action; int upd; } seg_t;
 typedef struct {
 	unsigned threads; uint64_t bs; unsigned timeout; int check; int flt; int kind; size_t n;
-	uint64_t dseed, sseed; long abort_after; int nseg; seg_t seg[MAXSEG];
+	uint64_t dseed, sseed; long abort_after; unsigned zscale; int nseg; seg_t seg[MAXSEG];
 } stream_cfg;
 
 typedef struct { size_t uoff, usize, coff, hsize, csize, total; int fallback; int nflt; uint64_t fid[4]; } blk_t;
@@ -116,7 +116,7 @@ typedef struct {
 static int parse_stream(const char *tok, stream_cfg *c)
 {
 	memset(c, 0, sizeof *c);
-	c->abort_after = -1;
+	c->abort_after = -1; c->zscale = 1;
 	const char *s = tok + 2;
 	while (*s) {
 		char k = *s++;
@@ -151,6 +151,7 @@ static int parse_stream(const char *tok, stream_cfg *c)
 		case 'd': c->dseed = (uint64_t)v; break;
 		case 's': c->sseed = (uint64_t)v; break;
 		case 'x': c->abort_after = (long)v; break;
+		case 'z': c->zscale = (unsigned)v; break;
 		default: return -1;
 		}
 		s = e;
@@ -503,6 +504,7 @@ static int one_call(drv_t *d, lzma_action action)
 		else if ((x & 15) < 6) ao = 1 + (size_t)((x >> 8) % 16);
 		else if ((x & 15) < 11) ao = 1 + (size_t)((x >> 8) % 700);
 		else ao = 1 + (size_t)((x >> 8) % 20000);
+		if (ao) ao *= d->c->zscale;
 	}
 	uint8_t *ob = malloc(ao ? ao : 1);
 	if (!ob) abort();
@@ -563,7 +565,7 @@ static int drive(drv_t *d)
 			else {
 				uint64_t x = rnd(&d->r);
 				size_t m = (x & 7) < 2 ? 16 : (x & 7) < 5 ? 3000 : 70000;
-				sl = 1 + (size_t)((x >> 8) % m); if (sl > rem) sl = rem;
+				sl = (1 + (size_t)((x >> 8) % m)) * d->c->zscale; if (sl > rem) sl = rem;
 			}
 			uint8_t *ib = malloc(sl); memcpy(ib, d->input + base + fed, sl);
 			s->next_in = ib; s->avail_in = sl;
